@@ -24,6 +24,7 @@ TRUSTED = ['Lean 4.33 kernel', 'axioms: propext, Classical.choice, Quot.sound', 
 
 
 EMPTY_KEEP_KEY = 'partial_trace-empty-keep'
+VARIANTS = {}      # op line -> the keep_index object that was actually passed (set / shuffled list / tuple / int)
 
 
 def guarded(f):
@@ -118,6 +119,7 @@ def pt_ops(ctx):
             ds = ';'.join(map(str, dims))
             if dense:
                 ops.append(f'C17 pt {ds} {ks} {gint_list(rho)}')
+                VARIANTS[ops[-1]] = kv
                 impl.append(guarded(lambda: gint_list(numqi.utils.partial_trace(rho, dims, kv))))
             else:
                 m = 40
@@ -342,8 +344,9 @@ def probe(ctx):
         if len(subsets) > 8:
             subsets = rng.sample(subsets, 8)
         for keep in subsets:
-            rep = dict(op='partial_trace', dims=list(dims), keep=list(keep), rho_seed=ctx.np_seed + 2)
-            got = guarded(lambda: numqi.utils.partial_trace(rho, dims, set(keep)))
+            kv = keep_variants(rng, keep, n)       # set / shuffled list / tuple with duplicates / bare int
+            rep = dict(op='partial_trace', dims=list(dims), keep=list(keep), keep_index_passed=repr(kv), rho_seed=ctx.np_seed + 2)
+            got = guarded(lambda: numqi.utils.partial_trace(rho, dims, kv))
             if isinstance(got, str) and len(keep) == 0:
                 ctx.fail(EMPTY_KEEP_KEY, f'partial_trace(rho, dim={dims}, keep_index=set()) raises {got[6:]} instead of returning [[trace]]', rep); continue
             if isinstance(got, str):
@@ -453,7 +456,8 @@ def search(ctx, hints):
                 continue
             D = int(np.prod(dims))
             rho = np.array([complex(*map(int, e.split(','))) for e in t[4].split(';')]).reshape(D, D)
-            got = guarded(lambda: numqi.utils.partial_trace(rho, dims, keep))
+            kv = VARIANTS.get(dd['op'], keep)
+            got = guarded(lambda: numqi.utils.partial_trace(rho, dims, kv))
             if isinstance(got, str) or not np.array_equal(got, explicit_partial_trace(rho, dims, keep)):
-                ctx.fail('partial_trace-contraction', f'partial_trace != explicit contraction for dims={dims}, keep={keep}',
-                         dict(op='partial_trace', dims=list(dims), keep=keep, rho=t[4]))
+                ctx.fail('partial_trace-contraction', f'partial_trace != explicit contraction for dims={dims}, keep_index={kv!r}',
+                         dict(op='partial_trace', dims=list(dims), keep=keep, keep_index_passed=repr(kv), rho=t[4]))
